@@ -1,12 +1,31 @@
 // C06 harness: lib/interval vs the Lean model (Model/Interval.lean), plus the
-// property's own oracle (containment, tightness, exact failure, freshness)
-// evaluated on the implementation with math/big.
+// property's own oracle evaluated on the implementation with math/big,
+// independent of the model:
+//
+//   - containment   every sampled / enumerated member pair's concrete result is in the result interval
+//   - tightness     all four bounds finite: brute force on small boxes (all ops), the four corners
+//     for the operators that are monotone along each axis (add sub mul quo lsh rsh, any
+//     magnitude), Warren's bit-serial min/max AND/OR (Hacker's Delight 4-3) for and/or
+//   - exact failure quo/lsh/rsh fail iff some pair is undefined; the others never fail
+//   - freshness     result pointers differ from operand pointers and package-level values; after
+//     scribbling over the result's big.Ints (incl. the spare capacity of their word
+//     arrays) the operands and the package-level values are unchanged
+//
+// Cases are generated sequentially from the seed, evaluated in parallel (each
+// case carries its own PRNG seed), and emitted sequentially in generation
+// order, so ops.txt / impl.txt / stats.json are deterministic per (seed, tier).
 package main
 
 import (
+	"bufio"
 	"fmt"
 	"math/big"
+	"os"
+	"path/filepath"
+	"runtime"
+	"sort"
 	"strings"
+	"sync"
 
 	"github.com/google/wuffs/lib/interval"
 	"wvh/hlib"
@@ -14,15 +33,19 @@ import (
 
 type bound = *big.Int // nil = infinite
 
+type IR = interval.IntRange
+
 func showB(b bound) string {
 	if b == nil {
 		return "inf"
 	}
 	return b.String()
 }
-func showR(r interval.IntRange) string { return showB(r[0]) + " " + showB(r[1]) }
+func showR(r IR) string { return showB(r[0]) + " " + showB(r[1]) }
 
 var ops = []string{"add", "sub", "mul", "quo", "lsh", "rsh", "and", "or", "unite", "intersect"}
+
+func bi(i int64) *big.Int { return big.NewInt(i) }
 
 func cp(b bound) bound {
 	if b == nil {
@@ -31,7 +54,9 @@ func cp(b bound) bound {
 	return new(big.Int).Set(b)
 }
 
-func apply(op string, x, y interval.IntRange) (z interval.IntRange, ok bool) {
+func cpR(r IR) IR { return IR{cp(r[0]), cp(r[1])} }
+
+func apply(op string, x, y IR) (z IR, ok bool) {
 	switch op {
 	case "add":
 		return x.TryAdd(y)
@@ -57,7 +82,11 @@ func apply(op string, x, y interval.IntRange) (z interval.IntRange, ok bool) {
 	panic("bad op")
 }
 
-// concrete semantics, independent of the package under test
+// maxEvalShift: concrete left shifts by more than this are not evaluated by the oracle.
+const maxEvalShift = 4096
+
+// concrete semantics, independent of the package under test.
+// (nil, false): undefined.  (nil, true): defined but too big to evaluate (member skipped).
 func concrete(op string, a, b *big.Int) (*big.Int, bool) {
 	z := new(big.Int)
 	switch op {
@@ -79,8 +108,8 @@ func concrete(op string, a, b *big.Int) (*big.Int, bool) {
 		if a.Sign() == 0 {
 			return z, true
 		}
-		if !b.IsInt64() || b.Int64() > 4096 {
-			return nil, true // too big to evaluate; skip this member
+		if !b.IsInt64() || b.Int64() > maxEvalShift {
+			return nil, true
 		}
 		return z.Lsh(a, uint(b.Int64())), true
 	case "rsh":
@@ -88,6 +117,9 @@ func concrete(op string, a, b *big.Int) (*big.Int, bool) {
 			return nil, false
 		}
 		if !b.IsInt64() || b.Int64() > 1<<20 {
+			if a.BitLen() > 1<<20 {
+				return nil, true
+			}
 			if a.Sign() < 0 {
 				return z.SetInt64(-1), true
 			}
@@ -102,77 +134,288 @@ func concrete(op string, a, b *big.Int) (*big.Int, bool) {
 	panic("bad op")
 }
 
-func empty(r interval.IntRange) bool { return r[0] != nil && r[1] != nil && r[0].Cmp(r[1]) > 0 }
+func empty(r IR) bool { return r[0] != nil && r[1] != nil && r[0].Cmp(r[1]) > 0 }
 
-func contains(r interval.IntRange, v *big.Int) bool {
+func finite(r IR) bool { return r[0] != nil && r[1] != nil }
+
+func contains(r IR, v *big.Int) bool {
 	return (r[0] == nil || r[0].Cmp(v) <= 0) && (r[1] == nil || r[1].Cmp(v) >= 0)
 }
 
-// members returns sample members of r: corners, near-corners, zero-crossings,
-// and (when the width is small) all members.
-func members(rng *hlib.Rand, r interval.IntRange, exhaustiveWidth int64) []*big.Int {
-	if empty(r) {
-		return nil
-	}
-	var out []*big.Int
-	add := func(v *big.Int) {
-		if contains(r, v) {
-			out = append(out, v)
+// ---- members
+
+// bitNeighbours appends, for a bound b, the values at which bit-wise and/or
+// extremes are attained: b with its low i bits cleared / set, and the next
+// multiple of 2^i above / below (Warren's candidates, the code's "maximal
+// elements").
+func bitNeighbours(rng *hlib.Rand, b *big.Int, add func(*big.Int)) {
+	n := b.BitLen() + 2
+	pos := make([]int, 0, 16)
+	if n <= 14 {
+		for i := 0; i < n; i++ {
+			pos = append(pos, i)
+		}
+	} else {
+		pos = append(pos, 0, 1, 2, n-1, n-2, n-3)
+		for len(pos) < 14 {
+			pos = append(pos, rng.Intn(n))
 		}
 	}
-	if r[0] != nil && r[1] != nil {
+	for _, i := range pos {
+		fl := new(big.Int).Rsh(b, uint(i)) // floor(b / 2^i), also for negatives
+		dn := new(big.Int).Lsh(fl, uint(i))
+		up := new(big.Int).Lsh(new(big.Int).Add(fl, bi(1)), uint(i))
+		add(dn)
+		add(new(big.Int).Sub(dn, bi(1)))
+		add(up)
+		add(new(big.Int).Sub(up, bi(1)))
+	}
+}
+
+// members returns sample members of r: all members when the width is at most
+// exhaustiveWidth, otherwise corners, near-corners, small values, random
+// members and (bits=true) bit-structured neighbours of the bounds.
+func members(rng *hlib.Rand, r IR, exhaustiveWidth int64, bits bool) (out []*big.Int, all bool) {
+	if empty(r) {
+		return nil, true
+	}
+	seen := map[string]bool{}
+	add := func(v *big.Int) {
+		if contains(r, v) {
+			s := v.String()
+			if !seen[s] {
+				seen[s] = true
+				out = append(out, v)
+			}
+		}
+	}
+	if finite(r) {
 		w := new(big.Int).Sub(r[1], r[0])
 		if w.IsInt64() && w.Int64() <= exhaustiveWidth {
 			for i := int64(0); i <= w.Int64(); i++ {
-				out = append(out, new(big.Int).Add(r[0], big.NewInt(i)))
+				out = append(out, new(big.Int).Add(r[0], bi(i)))
 			}
-			return out
+			return out, true
 		}
 	}
 	for _, c := range []int64{-2, -1, 0, 1, 2} {
-		add(big.NewInt(c))
+		add(bi(c))
 	}
 	for _, b := range []*big.Int{r[0], r[1]} {
 		if b == nil {
 			continue
 		}
 		for _, d := range []int64{0, 1, 2, 3, -1, -2, -3} {
-			add(new(big.Int).Add(b, big.NewInt(d)))
+			add(new(big.Int).Add(b, bi(d)))
+		}
+		if bits {
+			bitNeighbours(rng, b, add)
 		}
 	}
-	// random members
 	for i := 0; i < 6; i++ {
 		var v *big.Int
 		switch {
 		case r[0] != nil && r[1] != nil:
 			w := new(big.Int).Sub(r[1], r[0])
-			w.Add(w, big.NewInt(1))
+			w.Add(w, bi(1))
 			v = new(big.Int).SetUint64(rng.Uint64())
 			v.Mul(v, new(big.Int).SetUint64(rng.Uint64()))
 			v.Mul(v, new(big.Int).SetUint64(rng.Uint64()))
 			v.Mod(v, w)
 			v.Add(v, r[0])
 		case r[0] != nil:
-			v = new(big.Int).Add(r[0], randMag(rng).Abs(randMag(rng)))
+			m := randMag(rng)
+			v = new(big.Int).Add(r[0], m.Abs(m))
 		case r[1] != nil:
-			v = new(big.Int).Sub(r[1], randMag(rng).Abs(randMag(rng)))
+			m := randMag(rng)
+			v = new(big.Int).Sub(r[1], m.Abs(m))
 		default:
 			v = randMag(rng)
 		}
 		add(v)
 	}
-	return out
+	return out, false
 }
+
+// ---- reference min/max of and/or over finite boxes (Warren, Hacker's Delight 4-3), signed via
+// sign split + De Morgan + two's-complement bias. Independent of lib/interval's algorithm.
+
+func lowMask(i int) *big.Int {
+	m := new(big.Int).Lsh(bi(1), uint(i))
+	return m.Sub(m, bi(1))
+}
+
+func maxBitLen(vs ...*big.Int) int {
+	n := 0
+	for _, v := range vs {
+		if v.BitLen() > n {
+			n = v.BitLen()
+		}
+	}
+	return n
+}
+
+// all arguments non-negative, a<=b, c<=d
+func refMinOR(a, b, c, d *big.Int) *big.Int {
+	a, c = new(big.Int).Set(a), new(big.Int).Set(c)
+	for i := maxBitLen(a, b, c, d) - 1; i >= 0; i-- {
+		ai, ci := a.Bit(i), c.Bit(i)
+		if ai == 0 && ci == 1 {
+			t := new(big.Int).SetBit(a, i, 1)
+			t.AndNot(t, lowMask(i))
+			if t.Cmp(b) <= 0 {
+				a = t
+				break
+			}
+		} else if ai == 1 && ci == 0 {
+			t := new(big.Int).SetBit(c, i, 1)
+			t.AndNot(t, lowMask(i))
+			if t.Cmp(d) <= 0 {
+				c = t
+				break
+			}
+		}
+	}
+	return new(big.Int).Or(a, c)
+}
+
+func refMaxOR(a, b, c, d *big.Int) *big.Int {
+	b, d = new(big.Int).Set(b), new(big.Int).Set(d)
+	for i := maxBitLen(a, b, c, d) - 1; i >= 0; i-- {
+		if b.Bit(i) == 1 && d.Bit(i) == 1 {
+			t := new(big.Int).SetBit(b, i, 0)
+			t.Or(t, lowMask(i))
+			if t.Cmp(a) >= 0 {
+				b = t
+				break
+			}
+			t = new(big.Int).SetBit(d, i, 0)
+			t.Or(t, lowMask(i))
+			if t.Cmp(c) >= 0 {
+				d = t
+				break
+			}
+		}
+	}
+	return new(big.Int).Or(b, d)
+}
+
+func refMinAND(a, b, c, d *big.Int) *big.Int {
+	a, c = new(big.Int).Set(a), new(big.Int).Set(c)
+	for i := maxBitLen(a, b, c, d) - 1; i >= 0; i-- {
+		if a.Bit(i) == 0 && c.Bit(i) == 0 {
+			t := new(big.Int).SetBit(a, i, 1)
+			t.AndNot(t, lowMask(i))
+			if t.Cmp(b) <= 0 {
+				a = t
+				break
+			}
+			t = new(big.Int).SetBit(c, i, 1)
+			t.AndNot(t, lowMask(i))
+			if t.Cmp(d) <= 0 {
+				c = t
+				break
+			}
+		}
+	}
+	return new(big.Int).And(a, c)
+}
+
+func refMaxAND(a, b, c, d *big.Int) *big.Int {
+	b, d = new(big.Int).Set(b), new(big.Int).Set(d)
+	for i := maxBitLen(a, b, c, d) - 1; i >= 0; i-- {
+		bi_, di := b.Bit(i), d.Bit(i)
+		if bi_ == 1 && di == 0 {
+			t := new(big.Int).SetBit(b, i, 0)
+			t.Or(t, lowMask(i))
+			if t.Cmp(a) >= 0 {
+				b = t
+				break
+			}
+		} else if bi_ == 0 && di == 1 {
+			t := new(big.Int).SetBit(d, i, 0)
+			t.Or(t, lowMask(i))
+			if t.Cmp(c) >= 0 {
+				d = t
+				break
+			}
+		}
+	}
+	return new(big.Int).And(b, d)
+}
+
+func not(v *big.Int) *big.Int { return new(big.Int).Not(v) }
+
+// signSplit of a finite non-empty [a,b]: negative part, non-negative part (nil if absent)
+func signSplit(a, b *big.Int) (neg, non *[2]*big.Int) {
+	if a.Sign() < 0 {
+		h := bi(-1)
+		if b.Sign() < 0 {
+			h = b
+		}
+		neg = &[2]*big.Int{a, h}
+	}
+	if b.Sign() >= 0 {
+		l := bi(0)
+		if a.Sign() >= 0 {
+			l = a
+		}
+		non = &[2]*big.Int{l, b}
+	}
+	return
+}
+
+// refAnd returns the exact [min,max] of xx&yy over a finite non-empty box.
+func refAnd(a, b, c, d *big.Int) (lo, hi *big.Int) {
+	upd := func(l, h *big.Int) {
+		if lo == nil || l.Cmp(lo) < 0 {
+			lo = l
+		}
+		if hi == nil || h.Cmp(hi) > 0 {
+			hi = h
+		}
+	}
+	xn, xp := signSplit(a, b)
+	yn, yp := signSplit(c, d)
+	negNon := func(n, p *[2]*big.Int) {
+		w := uint(maxBitLen(n[0], n[1], p[0], p[1]) + 1)
+		bias := new(big.Int).Lsh(bi(1), w)
+		n0, n1 := new(big.Int).Add(n[0], bias), new(big.Int).Add(n[1], bias)
+		upd(refMinAND(n0, n1, p[0], p[1]), refMaxAND(n0, n1, p[0], p[1]))
+	}
+	if xn != nil && yn != nil {
+		// x&y = ~(~x | ~y)
+		a2, b2, c2, d2 := not(xn[1]), not(xn[0]), not(yn[1]), not(yn[0])
+		upd(not(refMaxOR(a2, b2, c2, d2)), not(refMinOR(a2, b2, c2, d2)))
+	}
+	if xn != nil && yp != nil {
+		negNon(xn, yp)
+	}
+	if xp != nil && yn != nil {
+		negNon(yn, xp)
+	}
+	if xp != nil && yp != nil {
+		upd(refMinAND(xp[0], xp[1], yp[0], yp[1]), refMaxAND(xp[0], xp[1], yp[0], yp[1]))
+	}
+	return
+}
+
+func refOr(a, b, c, d *big.Int) (lo, hi *big.Int) {
+	l, h := refAnd(not(b), not(a), not(d), not(c))
+	return not(h), not(l)
+}
+
+// ---- generators
 
 func randMag(rng *hlib.Rand) *big.Int {
 	k := rng.Intn(70)
 	if rng.Chance(1, 8) {
 		k = 60 + rng.Intn(75)
 	}
-	v := new(big.Int).Lsh(big.NewInt(1), uint(k))
-	v.Add(v, big.NewInt(int64(rng.Intn(5)-2)))
+	v := new(big.Int).Lsh(bi(1), uint(k))
+	v.Add(v, bi(int64(rng.Intn(5)-2)))
 	if rng.Chance(1, 3) {
-		v.Sub(v, new(big.Int).SetUint64(rng.Uint64()>>uint(64-min(k, 63)+0)))
+		v.Sub(v, new(big.Int).SetUint64(rng.Uint64()>>uint(64-imin(k, 63))))
 	}
 	if rng.Bool() {
 		v.Neg(v)
@@ -180,7 +423,7 @@ func randMag(rng *hlib.Rand) *big.Int {
 	return v
 }
 
-func min(a, b int) int {
+func imin(a, b int) int {
 	if a < b {
 		return a
 	}
@@ -192,169 +435,528 @@ func randBound(rng *hlib.Rand, small bool) bound {
 		return nil
 	}
 	if small {
-		return big.NewInt(int64(rng.Intn(41) - 20))
+		return bi(int64(rng.Intn(41) - 20))
 	}
 	switch rng.Intn(4) {
 	case 0:
-		return big.NewInt(int64(rng.Intn(41) - 20))
+		return bi(int64(rng.Intn(41) - 20))
 	case 1:
-		return big.NewInt(int64(rng.Intn(2001) - 1000))
+		return bi(int64(rng.Intn(2001) - 1000))
 	default:
 		return randMag(rng)
 	}
 }
 
-func randRange(rng *hlib.Rand, small bool) interval.IntRange {
+func randRange(rng *hlib.Rand, small bool) IR {
 	a, b := randBound(rng, small), randBound(rng, small)
 	if a != nil && b != nil && a.Cmp(b) > 0 && !rng.Chance(1, 10) {
 		a, b = b, a // mostly non-empty
 	}
 	if rng.Chance(1, 4) && a != nil {
 		// narrow range near a
-		b = new(big.Int).Add(a, big.NewInt(int64(rng.Intn(40))))
+		b = new(big.Int).Add(a, bi(int64(rng.Intn(40))))
 	}
-	return interval.IntRange{a, b}
+	return IR{a, b}
 }
 
-// for shifts: keep counts small unless the shifted value makes it cheap.
-func shiftRange(rng *hlib.Rand) interval.IntRange {
-	a := big.NewInt(int64(rng.Intn(12) - 2))
-	if rng.Chance(1, 6) {
-		a = big.NewInt(int64(rng.Intn(200)))
+// for shifts: keep counts small (0..200).
+func shiftRange(rng *hlib.Rand) IR {
+	var a bound = bi(int64(rng.Intn(70)))
+	if rng.Chance(1, 4) {
+		a = bi(int64(rng.Intn(201)))
 	}
-	var b bound = new(big.Int).Add(a, big.NewInt(int64(rng.Intn(10))))
+	if rng.Chance(1, 10) {
+		a = bi(int64(rng.Intn(8) - 4))
+	}
+	var b bound = new(big.Int).Add(a, bi(int64(rng.Intn(10))))
 	if rng.Chance(1, 8) {
 		b = nil
 	}
 	if rng.Chance(1, 12) {
-		return interval.IntRange{nil, b}
+		return IR{nil, b}
 	}
 	if rng.Chance(1, 20) {
 		a, b = b, a
 		if a == nil {
-			a = big.NewInt(3)
+			a = bi(3)
 		}
 	}
-	return interval.IntRange{a, b}
+	return IR{a, b}
 }
 
-type caseT struct {
+// randBits returns a non-negative value of exactly w bits (w >= 1) with a chosen bit texture.
+func randBits(rng *hlib.Rand, w int) *big.Int {
+	raw := func() *big.Int {
+		v := new(big.Int)
+		for i := 0; i < (w+63)/64; i++ {
+			v.Lsh(v, 64)
+			v.Or(v, new(big.Int).SetUint64(rng.Uint64()))
+		}
+		return v.And(v, lowMask(w))
+	}
+	var v *big.Int
+	switch rng.Intn(8) {
+	case 0: // sparse
+		v = raw()
+		v.And(v, raw())
+		v.And(v, raw())
+	case 1: // dense
+		v = raw()
+		v.Or(v, raw())
+		v.Or(v, raw())
+	case 2: // all ones
+		v = lowMask(w)
+	case 3: // single top bit
+		v = new(big.Int)
+	case 4: // alternating
+		v = new(big.Int)
+		for i := rng.Intn(2); i < w; i += 2 {
+			v.SetBit(v, i, 1)
+		}
+	case 5: // a run of ones somewhere
+		v = new(big.Int)
+		lo := rng.Intn(w)
+		hi := lo + rng.Intn(w-lo)
+		for i := lo; i <= hi; i++ {
+			v.SetBit(v, i, 1)
+		}
+	default:
+		v = raw()
+	}
+	return v.SetBit(v, w-1, 1)
+}
+
+func pickWidth(rng *hlib.Rand) int {
+	switch rng.Intn(10) {
+	case 0, 1, 2, 3:
+		return 1 + rng.Intn(8)
+	case 4, 5:
+		return 9 + rng.Intn(24)
+	case 6:
+		return 31 + rng.Intn(3)
+	case 7:
+		return 62 + rng.Intn(5)
+	case 8:
+		return 126 + rng.Intn(6)
+	default:
+		return 1 + rng.Intn(131)
+	}
+}
+
+// patRange returns a finite non-negative non-empty range whose bounds share a
+// random-length bit prefix (so the leading bit of hi&~lo is anywhere).
+func patRange(rng *hlib.Rand, w int) IR {
+	hi := randBits(rng, w)
+	var lo *big.Int
+	switch rng.Intn(8) {
+	case 0:
+		lo = new(big.Int).Set(hi)
+	case 1:
+		lo = bi(0)
+	case 2:
+		lo = new(big.Int).Sub(hi, bi(int64(rng.Intn(9))))
+		if lo.Sign() < 0 {
+			lo = bi(0)
+		}
+	default:
+		p := rng.Intn(w + 1)
+		lo = new(big.Int).AndNot(hi, lowMask(p))
+		lo.Or(lo, new(big.Int).And(randBits(rng, w), lowMask(p)))
+		if lo.Cmp(hi) > 0 {
+			lo.AndNot(hi, lowMask(p))
+		}
+	}
+	return IR{lo, hi}
+}
+
+// patPair returns two finite non-negative ranges related in a way that steers
+// andMax / orMax into each of their branches.
+func patPair(rng *hlib.Rand) (x, y IR) {
+	w := pickWidth(rng)
+	x = patRange(rng, w)
+	switch rng.Intn(8) {
+	case 0: // independent widths
+		y = patRange(rng, pickWidth(rng))
+	case 1: // same width, independent
+		y = patRange(rng, w)
+	case 2: // touching / adjacent: y starts at x.hi + {0,1,2}
+		lo := new(big.Int).Add(x[1], bi(int64(rng.Intn(3))))
+		hi := new(big.Int).Add(lo, new(big.Int).Rsh(randBits(rng, w), uint(rng.Intn(w))))
+		y = IR{lo, hi}
+	case 3: // disjoint above, same top bits
+		lo := new(big.Int).Add(x[1], bi(1+int64(rng.Intn(5))))
+		hi := new(big.Int).Or(lo, lowMask(rng.Intn(w+1)))
+		y = IR{lo, hi}
+	case 4: // complementary maxima (x.hi & y.hi == 0)
+		hi := new(big.Int).AndNot(lowMask(w), x[1])
+		p := rng.Intn(w + 1)
+		lo := new(big.Int).AndNot(hi, lowMask(p))
+		y = IR{lo, hi}
+	case 5: // y = [0, hi]
+		y = IR{bi(0), randBits(rng, pickWidth(rng))}
+		if rng.Bool() {
+			x[0] = bi(0)
+		}
+	case 6: // disjoint below
+		if x[0].Sign() > 0 {
+			hi := new(big.Int).Sub(x[0], bi(1+int64(rng.Intn(3))))
+			if hi.Sign() < 0 {
+				hi = bi(0)
+			}
+			lo := new(big.Int).AndNot(hi, lowMask(rng.Intn(w+1)))
+			y = IR{lo, hi}
+		} else {
+			y = patRange(rng, w)
+		}
+	default: // singletons
+		y = patRange(rng, w)
+		y[0] = new(big.Int).Set(y[1])
+		if rng.Bool() {
+			x[0] = new(big.Int).Set(x[1])
+		}
+	}
+	if rng.Bool() {
+		x, y = y, x
+	}
+	return
+}
+
+func notRange(r IR) IR {
+	var lo, hi bound
+	if r[1] != nil {
+		lo = not(r[1])
+	}
+	if r[0] != nil {
+		hi = not(r[0])
+	}
+	return IR{lo, hi}
+}
+
+// ---- harness-side branch classification (for the input-distribution histogram)
+
+func bfr(v *big.Int) *big.Int {
+	if v.Sign() <= 0 {
+		return new(big.Int).Set(v)
+	}
+	return lowMask(v.BitLen())
+}
+
+func andMaxBranch(x, y IR) string {
+	if y[1].Cmp(x[0]) >= 0 && x[1].Cmp(y[0]) >= 0 {
+		if y[1].Cmp(x[0]) == 0 || x[1].Cmp(y[0]) == 0 {
+			return "branch:andmax:overlap-touching"
+		}
+		return "branch:andmax:overlap"
+	}
+	flip := func(x, y IR) *big.Int {
+		j := bfr(new(big.Int).AndNot(x[1], x[0]))
+		j.And(j, x[1])
+		j.AndNot(j, y[1])
+		return bfr(j)
+	}
+	xf, yf := flip(x, y), flip(y, x)
+	s := "branch:andmax:disjoint"
+	if xf.Sign() == 0 {
+		s += "-xflip0"
+	} else {
+		s += "-xflip+"
+	}
+	if yf.Sign() == 0 {
+		s += "-yflip0"
+	} else {
+		s += "-yflip+"
+	}
+	return s
+}
+
+func orMaxBranch(x, y IR) string {
+	if x[0].Sign() == 0 && y[0].Sign() == 0 {
+		if new(big.Int).And(x[1], y[1]).Sign() == 0 {
+			return "branch:ormax:fast-avail0"
+		}
+		return "branch:ormax:fast-avail+"
+	}
+	j := new(big.Int).AndNot(x[1], x[0])
+	j.Or(j, new(big.Int).AndNot(y[1], y[0]))
+	j = bfr(j)
+	j.And(j, x[1])
+	j.And(j, y[1])
+	if j.Sign() == 0 {
+		return "branch:ormax:general-avail0"
+	}
+	return "branch:ormax:general-avail+"
+}
+
+func signClass(r IR) string {
+	if empty(r) {
+		return "E"
+	}
+	s := ""
+	switch {
+	case r[1] != nil && r[1].Sign() < 0:
+		s = "N"
+	case r[0] != nil && r[0].Sign() >= 0:
+		s = "P"
+	default:
+		s = "S"
+	}
+	if r[0] == nil || r[1] == nil {
+		s += "i"
+	}
+	return s
+}
+
+// ---- work items
+
+type item struct {
+	kind string // "api" | "andmax" | "ormax" | "bfr" | "split2" | "split3"
 	op   string
-	x, y interval.IntRange
+	x, y IR
+	n    *big.Int
+	exhW int64
+	seed uint64
 }
 
-func (c caseT) line() string { return c.op + " " + showR(c.x) + " " + showR(c.y) }
+func (c *item) line() string {
+	switch c.kind {
+	case "api":
+		return c.op + " " + showR(c.x) + " " + showR(c.y)
+	case "andmax", "ormax":
+		return c.kind + " " + showR(c.x) + " " + showR(c.y)
+	case "bfr":
+		return "bfr " + c.n.String()
+	}
+	return c.kind + " " + showR(c.x)
+}
 
-func run1(r *hlib.Run, c caseT, exhaustiveWidth int64) {
-	xs := interval.IntRange{cp(c.x[0]), cp(c.x[1])}
-	ys := interval.IntRange{cp(c.y[0]), cp(c.y[1])}
-	var z interval.IntRange
+type result struct {
+	line, out  string
+	fails      []hlib.Failure
+	counts     []string
+	nontrivial bool
+}
+
+func (res *result) fail(key, desc string) {
+	if len(res.fails) < 4 {
+		res.fails = append(res.fails, hlib.Failure{Key: key, Desc: desc, Replay: res.line})
+	}
+}
+func (res *result) count(s string) { res.counts = append(res.counts, s) }
+
+var sharedSnapshot0 string
+
+func evalInternal(c *item) *result {
+	res := &result{line: c.line()}
+	switch c.kind {
+	case "andmax":
+		res.out = hlib.Guard(func() string { return "v " + interval.VerifAndMax(c.x, c.y).String() })
+		if c.x[0].Sign() >= 0 && c.y[0].Sign() >= 0 {
+			res.count(andMaxBranch(c.x, c.y))
+		} else {
+			res.count("branch:andmax:complemented-operands")
+		}
+	case "ormax":
+		res.out = hlib.Guard(func() string { return "v " + interval.VerifOrMax(c.x, c.y).String() })
+		if c.x[0].Sign() >= 0 && c.y[0].Sign() >= 0 {
+			res.count(orMaxBranch(c.x, c.y))
+		} else {
+			res.count("branch:ormax:complemented-operands")
+		}
+	case "bfr":
+		n := new(big.Int).Set(c.n)
+		res.out = hlib.Guard(func() string { interval.VerifBitFillRight(n); return "v " + n.String() })
+	case "split2":
+		res.out = hlib.Guard(func() string {
+			a, b, p, q := interval.VerifSplit2Ways(c.x)
+			return fmt.Sprintf("s %s %s %v %v", showR(a), showR(b), p, q)
+		})
+	case "split3":
+		res.out = hlib.Guard(func() string {
+			a, b, p, q, s := interval.VerifSplit3Ways(c.x)
+			return fmt.Sprintf("s %s %s %v %v %v", showR(a), showR(b), p, q, s)
+		})
+	}
+	res.count("op:" + c.kind)
+	return res
+}
+
+// scribble overwrites a result big.Int in place, including the spare capacity
+// of its word array, so that any storage shared with another big.Int shows.
+func scribble(p *big.Int, v int64) {
+	w := p.Bits()
+	w = w[:cap(w)]
+	for i := range w {
+		w[i] = ^w[i] ^ 0x5A5A
+	}
+	p.SetInt64(v)
+}
+
+func eval(c *item) *result {
+	if c.kind != "api" {
+		return evalInternal(c)
+	}
+	rng := hlib.NewRand(c.seed)
+	res := &result{line: c.line()}
+	op := c.op
+	xs, ys := showR(c.x), showR(c.y)
+	xv, yv := cpR(c.x), cpR(c.y) // private copies of the values, for the oracle
+	var z IR
 	var ok bool
 	out, msg := hlib.GuardMsg(func() string {
-		z, ok = apply(c.op, c.x, c.y)
+		z, ok = apply(op, c.x, c.y)
 		if !ok {
 			return "fail"
 		}
 		return "ok " + showR(z)
 	})
-	r.Op(c.line(), out)
-	r.Count("op:" + c.op)
-	r.Count("out:" + strings.SplitN(out, " ", 2)[0])
-	line := c.line()
+	res.out = out
+	res.count("op:" + op)
+	res.count("out:" + strings.SplitN(out, " ", 2)[0])
+	if op == "and" || op == "or" {
+		res.count("class:bitop:" + signClass(xv) + "-" + signClass(yv))
+	}
 	if out == "panic" {
-		r.Fail("panic:"+c.op, "interval op panicked: "+msg, line)
-		return
+		res.fail("panic:"+op, "interval op panicked: "+msg)
+		return res
 	}
-	// operands unchanged
-	if showR(xs) != showR(c.x) || showR(ys) != showR(c.y) {
-		r.Fail("operand-mutated:"+c.op, "operation changed an operand", line)
+	if showR(c.x) != xs || showR(c.y) != ys {
+		res.fail("operand-mutated:"+op, "operation changed an operand")
 	}
-	xe, ye := empty(c.x), empty(c.y)
-	nontrivial := !xe && !ye
+	xe, ye := empty(xv), empty(yv)
+	res.nontrivial = !xe && !ye
 	// exact-failure clause
-	if c.op == "quo" || c.op == "lsh" || c.op == "rsh" {
+	if op == "quo" || op == "lsh" || op == "rsh" {
 		undefined := false
 		if !xe && !ye {
-			if c.op == "quo" {
-				undefined = contains(c.y, big.NewInt(0))
+			if op == "quo" {
+				undefined = contains(yv, bi(0))
 			} else {
-				undefined = c.y[0] == nil || c.y[0].Sign() < 0
+				undefined = yv[0] == nil || yv[0].Sign() < 0
 			}
 		}
 		if undefined == ok {
-			r.Fail("exact-failure:"+c.op, fmt.Sprintf("ok=%v but some pair undefined=%v", ok, undefined), line)
+			res.fail("exact-failure:"+op, fmt.Sprintf("ok=%v but some pair undefined=%v", ok, undefined))
 		}
 	} else if !ok {
-		r.Fail("spurious-failure:"+c.op, "operation that cannot fail reported failure", line)
+		res.fail("spurious-failure:"+op, "operation that cannot fail reported failure")
 	}
 	if !ok {
-		if nontrivial {
-			r.Nontrivial(line)
-		}
-		return
+		return res
 	}
-	// freshness: result pointers distinct from operands and package-level values
+	zv := cpR(z)
+	// freshness 1: pointer identity
+	ptrOK := true
 	for _, p := range z {
 		if p == nil {
 			continue
 		}
 		if p == c.x[0] || p == c.x[1] || p == c.y[0] || p == c.y[1] || interval.VerifShared(p) {
-			r.Fail("shared-storage:"+c.op, "result shares a *big.Int with an operand or a package-level value", line)
+			res.fail("shared-storage:"+op, "result shares a *big.Int with an operand or a package-level value")
+			ptrOK = false
 		}
 	}
 	if z[0] != nil && z[0] == z[1] {
-		r.Fail("shared-storage:"+c.op, "result bounds share one *big.Int", line)
+		res.fail("shared-storage:"+op, "result bounds share one *big.Int")
+		ptrOK = false
 	}
+	// freshness 2: scribble over the result, operands and package-level values must not move
+	if ptrOK {
+		if z[0] != nil {
+			scribble(z[0], 12345)
+		}
+		if z[1] != nil {
+			scribble(z[1], -54321)
+		}
+		res.count("freshness-scribbled")
+		if showR(c.x) != xs || showR(c.y) != ys {
+			res.fail("shared-storage:"+op, "mutating the result in place changed an operand: now "+showR(c.x)+" / "+showR(c.y))
+		}
+		if s := interval.VerifSharedSnapshot(); s != sharedSnapshot0 {
+			res.fail("shared-storage:"+op, "mutating the result in place changed a package-level value: "+s)
+			interval.VerifSharedRestore()
+		}
+		if z[0] != nil && z[1] != nil && z[0].Cmp(bi(12345)) != 0 {
+			res.fail("shared-storage:"+op, "result bounds share word storage")
+		}
+	}
+	z = zv
 	if xe || ye {
-		if c.op != "unite" && !empty(z) {
-			r.Fail("empty-in-nonempty-out:"+c.op, "empty operand gave non-empty result "+showR(z), line)
+		if op != "unite" && !empty(z) {
+			res.fail("empty-in-nonempty-out:"+op, "empty operand gave non-empty result "+showR(z))
 		}
-		if c.op != "unite" {
-			return
+		if op != "unite" {
+			return res
 		}
 	}
-	if c.op == "unite" || c.op == "intersect" {
-		for _, v := range append(members(r.Rand, c.x, exhaustiveWidth), members(r.Rand, c.y, exhaustiveWidth)...) {
-			inX, inY := contains(c.x, v) && !xe, contains(c.y, v) && !ye
-			if c.op == "unite" && (inX || inY) && !contains(z, v) {
-				r.Fail("containment:unite", "member "+v.String()+" not in union "+showR(z), line)
+	bits := op == "and" || op == "or"
+	mx, allX := members(rng, xv, c.exhW, bits)
+	my, allY := members(rng, yv, c.exhW, bits)
+	if op == "unite" || op == "intersect" {
+		for _, v := range append(mx, my...) {
+			inX, inY := contains(xv, v) && !xe, contains(yv, v) && !ye
+			if op == "unite" && (inX || inY) && !contains(z, v) {
+				res.fail("containment:unite", "member "+v.String()+" not in union "+showR(z))
 			}
-			if c.op == "intersect" && (inX && inY) != contains(z, v) {
-				r.Fail("containment:intersect", "member "+v.String()+" wrongly classified by "+showR(z), line)
+			if op == "intersect" && (inX && inY) != contains(z, v) {
+				res.fail("containment:intersect", "member "+v.String()+" wrongly classified by "+showR(z))
 			}
 		}
-		if c.op == "unite" && !xe && !ye {
-			// tightest: bounds are the min/max of the operands' bounds
+		if op == "unite" {
+			// tightest: each bound is the min/max of the non-empty operands' bounds
 			for k := 0; k < 2; k++ {
-				if z[k] != nil && !(z[k].Cmp(c.x[k]) == 0 || z[k].Cmp(c.y[k]) == 0) {
-					r.Fail("tightness:unite", "bound not attained", line)
+				var want bound
+				switch {
+				case xe && ye:
+					continue
+				case xe:
+					want = yv[k]
+				case ye:
+					want = xv[k]
+				case xv[k] == nil || yv[k] == nil:
+					want = nil
+				case (xv[k].Cmp(yv[k]) < 0) == (k == 0):
+					want = xv[k]
+				default:
+					want = yv[k]
+				}
+				if (want == nil) != (z[k] == nil) || (want != nil && want.Cmp(z[k]) != 0) {
+					res.fail("tightness:unite", fmt.Sprintf("bound %d should be %s, got %s", k, showB(want), showR(z)))
 				}
 			}
+			res.count("tightness-checked:unite")
+		} else {
+			// exact: [max lo, min hi]
+			var lo, hi bound = xv[0], xv[1]
+			if lo == nil || (yv[0] != nil && yv[0].Cmp(lo) > 0) {
+				lo = yv[0]
+			}
+			if hi == nil || (yv[1] != nil && yv[1].Cmp(hi) < 0) {
+				hi = yv[1]
+			}
+			want := IR{lo, hi}
+			if empty(want) != empty(z) || (!empty(want) && showR(want) != showR(z)) {
+				res.fail("tightness:intersect", "expected "+showR(want)+", got "+showR(z))
+			}
+			res.count("tightness-checked:intersect")
 		}
-		r.Nontrivial(line)
-		return
+		return res
 	}
-	mx, my := members(r.Rand, c.x, exhaustiveWidth), members(r.Rand, c.y, exhaustiveWidth)
-	allFinite := c.x[0] != nil && c.x[1] != nil && c.y[0] != nil && c.y[1] != nil
-	exh := false
-	if allFinite {
-		wx := new(big.Int).Sub(c.x[1], c.x[0])
-		wy := new(big.Int).Sub(c.y[1], c.y[0])
-		exh = wx.IsInt64() && wy.IsInt64() && wx.Int64() <= exhaustiveWidth && wy.Int64() <= exhaustiveWidth
-	}
+	allFinite := finite(xv) && finite(yv)
 	var lo, hi *big.Int
+	skipped := false
 	for _, a := range mx {
 		for _, b := range my {
-			v, def := concrete(c.op, a, b)
+			v, def := concrete(op, a, b)
 			if !def {
-				r.Fail("exact-failure:"+c.op, fmt.Sprintf("ok but %v %s %v undefined", a, c.op, b), line)
+				res.fail("exact-failure:"+op, fmt.Sprintf("ok but %v %s %v undefined", a, op, b))
 				continue
 			}
 			if v == nil {
+				skipped = true
 				continue
 			}
 			if !contains(z, v) {
-				r.Fail("containment:"+c.op, fmt.Sprintf("%v %s %v = %v not in %s", a, c.op, b, v, showR(z)), line)
+				res.fail("containment:"+op, fmt.Sprintf("%v %s %v = %v not in %s", a, op, b, v, showR(z)))
 			}
 			if lo == nil || v.Cmp(lo) < 0 {
 				lo = v
@@ -364,107 +966,375 @@ func run1(r *hlib.Run, c caseT, exhaustiveWidth int64) {
 			}
 		}
 	}
-	if exh && lo != nil {
-		r.Count("tightness-checked")
+	res.count("containment-checked")
+	brute := allFinite && allX && allY && !skipped && lo != nil
+	if brute {
+		res.count("tightness-checked:brute:" + op)
 		if z[0] == nil || z[1] == nil || z[0].Cmp(lo) != 0 || z[1].Cmp(hi) != 0 {
-			r.Fail("tightness:"+c.op, fmt.Sprintf("tightest is %v %v, got %s", lo, hi, showR(z)), line)
+			res.fail("tightness:"+op, fmt.Sprintf("tightest is %v %v (brute force), got %s", lo, hi, showR(z)))
 		}
 	}
-	r.Nontrivial(line)
-}
-
-func internals(r *hlib.Run, rng *hlib.Rand) {
-	// andMax / orMax / bitFillRight / split on non-negative finite ranges
-	nn := func() (interval.IntRange, []string) {
-		a := new(big.Int).Abs(randBound2(rng))
-		b := new(big.Int).Add(a, new(big.Int).Abs(randBound2(rng)))
-		if rng.Chance(1, 3) {
-			b = new(big.Int).Add(a, big.NewInt(int64(rng.Intn(9))))
-		}
-		return interval.IntRange{a, b}, nil
-	}
-	x, _ := nn()
-	y, _ := nn()
-	for _, op := range []string{"andmax", "ormax"} {
-		out := hlib.Guard(func() string {
-			if op == "andmax" {
-				return "v " + interval.VerifAndMax(x, y).String()
+	if allFinite {
+		var rlo, rhi *big.Int
+		how := ""
+		switch op {
+		case "and":
+			rlo, rhi = refAnd(xv[0], xv[1], yv[0], yv[1])
+			how = "ref"
+		case "or":
+			rlo, rhi = refOr(xv[0], xv[1], yv[0], yv[1])
+			how = "ref"
+		default:
+			// monotone along each axis: extremes are at the four corners
+			how = "corner"
+			for _, a := range xv {
+				for _, b := range yv {
+					v, def := concrete(op, a, b)
+					if !def || v == nil {
+						how = ""
+						continue
+					}
+					if rlo == nil || v.Cmp(rlo) < 0 {
+						rlo = v
+					}
+					if rhi == nil || v.Cmp(rhi) > 0 {
+						rhi = v
+					}
+				}
 			}
-			return "v " + interval.VerifOrMax(x, y).String()
-		})
-		r.Op(op+" "+showR(x)+" "+showR(y), out)
-		r.Count("op:" + op)
+		}
+		if how != "" {
+			res.count("tightness-checked:" + how + ":" + op)
+			if z[0] == nil || z[1] == nil || z[0].Cmp(rlo) != 0 || z[1].Cmp(rhi) != 0 {
+				res.fail("tightness:"+op, fmt.Sprintf("tightest is %v %v (%s), got %s", rlo, rhi, how, showR(z)))
+			}
+			if brute && (rlo.Cmp(lo) != 0 || rhi.Cmp(hi) != 0) {
+				res.fail("oracle-selfcheck:"+op, fmt.Sprintf("harness bug: %s oracle says %v %v, brute force %v %v", how, rlo, rhi, lo, hi))
+			}
+		}
 	}
-	n := new(big.Int).Abs(randBound2(rng))
-	s := n.String()
-	r.Op("bfr "+s, hlib.Guard(func() string { interval.VerifBitFillRight(n); return "v " + n.String() }))
-	z := randRange(rng, rng.Bool())
-	r.Op("split2 "+showR(z), hlib.Guard(func() string {
-		a, b, c, d := interval.VerifSplit2Ways(z)
-		return fmt.Sprintf("s %s %s %v %v", showR(a), showR(b), c, d)
-	}))
-	r.Op("split3 "+showR(z), hlib.Guard(func() string {
-		a, b, c, d, e := interval.VerifSplit3Ways(z)
-		return fmt.Sprintf("s %s %s %v %v %v", showR(a), showR(b), c, d, e)
-	}))
+	return res
 }
 
-func randBound2(rng *hlib.Rand) *big.Int {
-	b := randBound(rng, rng.Chance(1, 3))
-	if b == nil {
-		return big.NewInt(int64(rng.Intn(64)))
+// ---- runner: generate sequentially, evaluate in parallel, emit sequentially
+
+type runner struct {
+	r     *hlib.Run
+	batch []*item
+}
+
+func (q *runner) add(c *item) {
+	c.seed = q.r.Rand.Uint64()
+	q.batch = append(q.batch, c)
+	if len(q.batch) >= 1<<15 {
+		q.flush()
 	}
-	return b
+}
+
+func (q *runner) api(op string, x, y IR, exhW int64) {
+	q.add(&item{kind: "api", op: op, x: x, y: y, exhW: exhW})
+}
+
+func (q *runner) flush() {
+	n := len(q.batch)
+	if n == 0 {
+		return
+	}
+	results := make([]*result, n)
+	workers := runtime.GOMAXPROCS(0)
+	if workers > 16 {
+		workers = 16
+	}
+	if n < 256 {
+		workers = 1
+	}
+	var wg sync.WaitGroup
+	for w := 0; w < workers; w++ {
+		wg.Add(1)
+		go func(w int) {
+			defer wg.Done()
+			for i := w; i < n; i += workers {
+				results[i] = eval(q.batch[i])
+			}
+		}(w)
+	}
+	wg.Wait()
+	r := q.r
+	for _, res := range results {
+		r.Op(res.line, res.out)
+		for _, c := range res.counts {
+			r.Count(c)
+		}
+		for _, f := range res.fails {
+			r.Fail(f.Key, f.Desc, f.Replay)
+		}
+		if res.nontrivial {
+			r.Nontrivial(res.line)
+		}
+	}
+	q.batch = q.batch[:0]
+}
+
+// ---- corpus: op lines of minimised past failures, run first
+
+func parseBound(s string) (bound, bool) {
+	if s == "inf" {
+		return nil, true
+	}
+	v, ok := new(big.Int).SetString(s, 10)
+	return v, ok
+}
+
+func corpusDirs() []string {
+	out := []string{filepath.Join("corpus", "C06")}
+	if exe, err := os.Executable(); err == nil {
+		out = append(out, filepath.Join(filepath.Dir(exe), "..", "corpus", "C06"))
+	}
+	return out
+}
+
+func runCorpus(q *runner) {
+	for _, d := range corpusDirs() {
+		files, _ := filepath.Glob(filepath.Join(d, "*.txt"))
+		if len(files) == 0 {
+			continue
+		}
+		sort.Strings(files)
+		for _, f := range files {
+			fh, err := os.Open(f)
+			if err != nil {
+				continue
+			}
+			sc := bufio.NewScanner(fh)
+			for sc.Scan() {
+				t := strings.Fields(sc.Text())
+				if len(t) == 0 || strings.HasPrefix(t[0], "#") {
+					continue
+				}
+				isOp := false
+				for _, o := range ops {
+					isOp = isOp || o == t[0]
+				}
+				if !isOp || len(t) != 5 {
+					q.r.Count("corpus:skipped-line")
+					continue
+				}
+				var b [4]bound
+				good := true
+				for i := 0; i < 4; i++ {
+					var ok bool
+					b[i], ok = parseBound(t[i+1])
+					good = good && ok
+				}
+				if !good {
+					q.r.Count("corpus:skipped-line")
+					continue
+				}
+				q.api(t[0], IR{b[0], b[1]}, IR{b[2], b[3]}, 64)
+				q.r.Count("corpus:line")
+			}
+			fh.Close()
+		}
+		return
+	}
+}
+
+func pow2(k int, d int64) *big.Int {
+	v := new(big.Int).Lsh(bi(1), uint(k))
+	return v.Add(v, bi(d))
 }
 
 func main() {
 	r := hlib.Start("C06")
 	rng := r.Rand
-	// 1. systematic small boxes, all ops (bounds in [-B, B] plus infinite, incl. empties)
+	q := &runner{r: r}
+	sharedSnapshot0 = interval.VerifSharedSnapshot()
+
 	B := int64(3)
-	nRandom := 12000
+	nRandom, nPat, nHalf, shiftStep := 14000, 4000, 2500, 1
 	if r.Thorough {
-		B = 6
-		nRandom = 400000
+		B = 9
+		nRandom, nPat, nHalf = 600000, 250000, 150000
 	}
+
+	// 0. corpus
+	runCorpus(q)
+	q.flush()
+	r.Count("phase:corpus")
+
+	// 1. systematic small boxes, all ops (bounds in [-B, B] plus infinite, incl. empties)
 	var vals []bound
 	vals = append(vals, nil)
 	for i := -B; i <= B; i++ {
-		vals = append(vals, big.NewInt(i))
+		vals = append(vals, bi(i))
 	}
 	for _, op := range ops {
 		for _, a := range vals {
 			for _, b := range vals {
 				for _, c := range vals {
 					for _, d := range vals {
-						if (op == "lsh") && false {
-							continue
-						}
-						run1(r, caseT{op, interval.IntRange{cp(a), cp(b)}, interval.IntRange{cp(c), cp(d)}}, 64)
+						q.api(op, IR{cp(a), cp(b)}, IR{cp(c), cp(d)}, 64)
 					}
 				}
 			}
 		}
 	}
+	q.flush()
 	r.Count("phase:systematic")
-	// 2. random, structured
+
+	// 2. random, structured magnitudes (2^k +-2 for k up to 135, sign-straddling, half-infinite)
 	for i := 0; i < nRandom; i++ {
 		op := ops[rng.Intn(len(ops))]
 		small := rng.Chance(1, 3)
-		c := caseT{op: op, x: randRange(rng, small), y: randRange(rng, small)}
+		x, y := randRange(rng, small), randRange(rng, small)
 		if op == "lsh" || op == "rsh" {
-			c.y = shiftRange(rng)
+			y = shiftRange(rng)
 			if op == "lsh" && rng.Chance(1, 2) {
-				c.x = randRange(rng, true)
+				x = randRange(rng, true)
 			}
 		}
+		if op == "quo" && rng.Chance(1, 2) && y[0] != nil && y[1] != nil {
+			// make the divisor one-signed more often (otherwise most cases just fail)
+			if y[0].Sign() <= 0 && y[1].Sign() >= 0 {
+				y[0] = new(big.Int).Add(y[1], bi(1))
+				y[1] = new(big.Int).Add(y[0], bi(int64(rng.Intn(50))))
+				if rng.Bool() {
+					y[0], y[1] = new(big.Int).Neg(y[1]), new(big.Int).Neg(y[0])
+				}
+			}
+		}
+		c := &item{kind: "api", op: op, x: x, y: y, exhW: 48}
 		if i < 4 {
 			r.Sample(c.line())
 		}
-		run1(r, c, 24)
+		q.add(c)
 		if i%4 == 0 {
-			internals(r, rng)
+			z := randRange(rng, rng.Bool())
+			q.add(&item{kind: "split2", x: z})
+			q.add(&item{kind: "split3", x: z})
+			n := randBound(rng, rng.Chance(1, 3))
+			if n == nil {
+				n = bi(int64(rng.Intn(64)))
+			}
+			q.add(&item{kind: "bfr", n: new(big.Int).Abs(n)})
 		}
 	}
-	r.Finish("systematic: all 10 ops x bounds in [-B,B]∪{inf} (B=3 quick, 6 thorough) incl. empty intervals; random: magnitudes around 2^k±2 up to k=135, sign-straddling, half-infinite; non-trivial = both operands non-empty; distinct = distinct op line")
+	q.flush()
+	r.Count("phase:random")
+
+	// 3. bit patterns for andMax / orMax, through the internals and through the public And/Or
+	//    (plain, complemented = negative, and half-infinite variants)
+	for i := 0; i < nPat; i++ {
+		x, y := patPair(rng)
+		q.add(&item{kind: "andmax", x: x, y: y})
+		q.add(&item{kind: "ormax", x: x, y: y})
+		if rng.Chance(1, 4) {
+			// as called by andBothNonNeg / orBothNonNeg on complemented operands
+			q.add(&item{kind: "andmax", x: notRange(x), y: notRange(y)})
+			q.add(&item{kind: "ormax", x: notRange(x), y: notRange(y)})
+		}
+		ax, ay := cpR(x), cpR(y)
+		switch rng.Intn(6) {
+		case 0:
+			ax = notRange(ax)
+		case 1:
+			ay = notRange(ay)
+		case 2:
+			ax, ay = notRange(ax), notRange(ay)
+		case 3: // straddle: extend x down to a negative bound
+			ax[0] = not(ax[0])
+		}
+		q.api("and", cpR(ax), cpR(ay), 24)
+		q.api("or", cpR(ax), cpR(ay), 24)
+		if i < 3 {
+			r.Sample("and " + showR(ax) + " " + showR(ay))
+		}
+	}
+	q.flush()
+	r.Count("phase:bit-patterns")
+
+	// 4. half-infinite and/or: the ContainsInt fast paths and the bitFillRight(y.lo) branch of
+	//    orBothNonNeg, andOneNegOneNonNeg's three branches, inPlaceUnite with nil bounds
+	for i := 0; i < nHalf; i++ {
+		w := pickWidth(rng)
+		x := patRange(rng, w)
+		var y IR
+		switch rng.Intn(4) {
+		case 0: // disjoint above, infinite
+			y = IR{new(big.Int).Add(x[1], bi(1+int64(rng.Intn(40)))), nil}
+		case 1: // overlapping, infinite
+			y = IR{new(big.Int).Sub(x[1], bi(int64(rng.Intn(4)))), nil}
+			if y[0].Sign() < 0 {
+				y[0] = bi(0)
+			}
+		case 2: // disjoint above by a bit pattern
+			y = IR{new(big.Int).Add(x[1], randBits(rng, pickWidth(rng))), nil}
+		default:
+			y = IR{randBits(rng, pickWidth(rng)), nil}
+		}
+		if rng.Chance(1, 6) {
+			x[1] = nil
+		}
+		if rng.Chance(1, 3) {
+			x[0] = not(x[0]) // straddling
+		}
+		switch rng.Intn(5) {
+		case 0:
+			x = notRange(x)
+		case 1:
+			y = notRange(y)
+		case 2:
+			x, y = notRange(x), notRange(y)
+		}
+		if rng.Bool() {
+			x, y = y, x
+		}
+		q.api("and", cpR(x), cpR(y), 24)
+		q.api("or", cpR(x), cpR(y), 24)
+	}
+	q.flush()
+	r.Count("phase:half-infinite")
+
+	// 5. shifts: every count 0..200 against a few operand shapes; the 2^32 threshold only with
+	//    x = [0,0] or empty (anything else would allocate 512 MiB in math/big and in the model)
+	for k := 0; k <= 200; k += shiftStep {
+		xsh := []IR{
+			{bi(1), bi(1)}, {bi(-1), bi(-1)}, {bi(-3), bi(5)}, {bi(0), bi(7)}, {bi(-9), bi(0)},
+			{pow2(64, -1), pow2(64, 1)}, {new(big.Int).Neg(pow2(70, 0)), bi(7)},
+			{pow2(k, -1), pow2(k, 1)}, {new(big.Int).Neg(pow2(k, 1)), new(big.Int).Neg(pow2(k, -1))},
+			{nil, bi(-2)}, {bi(3), nil},
+		}
+		x := xsh[rng.Intn(len(xsh))]
+		x2 := xsh[rng.Intn(len(xsh))]
+		kk := int64(k)
+		for _, op := range []string{"lsh", "rsh"} {
+			q.api(op, cpR(x), IR{bi(kk), bi(kk)}, 24)
+			q.api(op, cpR(x2), IR{bi(kk), bi(kk + 1 + int64(rng.Intn(3)))}, 24)
+			q.api(op, cpR(xsh[7]), IR{bi(kk), bi(kk)}, 24)
+			q.api(op, cpR(xsh[8]), IR{bi(kk / 2), bi(kk)}, 24)
+			if k%5 == 0 {
+				q.api(op, cpR(x), IR{bi(kk), nil}, 24)
+				q.api(op, cpR(x2), IR{bi(0), bi(kk)}, 24)
+			}
+		}
+		r.Count("shift-count-covered")
+	}
+	for _, t := range []int64{0xFFFFFFFE, 0xFFFFFFFF, 0x100000000, 0x100000001} {
+		for _, x := range []IR{{bi(0), bi(0)}, {bi(1), bi(-1)}, {bi(3), bi(2)}} {
+			for _, y := range []IR{{bi(t), bi(t)}, {bi(t), bi(t + 1)}, {bi(0), bi(t)}, {bi(t), nil}, {bi(t + 2), bi(t)}, {bi(-1), bi(t)}, {nil, bi(t)}} {
+				for _, op := range []string{"lsh", "rsh"} {
+					q.api(op, cpR(x), cpR(y), 24)
+					r.Count("shift-threshold-2^32")
+				}
+			}
+		}
+	}
+	q.flush()
+	r.Count("phase:shifts")
+
+	r.Finish("corpus lines first; systematic: all 10 ops x bounds in [-B,B]∪{inf} (B=3 quick, 9 thorough) incl. empty intervals; " +
+		"random: magnitudes around 2^k±2 up to k=135, sign-straddling, half-infinite; bit patterns: prefix-sharing / adjacent / touching / " +
+		"complementary non-negative ranges (1..131 bits) through andMax/orMax and through And/Or plain, complemented and straddling; " +
+		"half-infinite and/or; shifts: every count 0..200, 2^32 threshold with x=[0,0]/empty only. " +
+		"non-trivial = both operands non-empty; distinct = distinct op line")
 }
